@@ -164,6 +164,13 @@ async def run_script(world, sess, obs: SessionObs, hostport):
                     rec["rest"] = await peer.cmd(f"REST {o['rest']}")
                 rec["res"] = await peer.download(_fmt(op[1], prefix), passive=o.get("p", "EPSV"), connect=o.get("c", "before"), data_timeout=sess.get("data_timeout"))
                 rec["fs_n"] = world.fsctl.per_label.get(sess["label"], 0)
+            elif kind == "get_stalled":
+                # the peer opens the data connection with a tiny receive buffer and never reads it
+                rec["pre"] = await peer.passive("EPSV")
+                await peer.data_connect(limit=16)
+                rec["reply"] = await peer.cmd(_fmt(op[1], prefix))
+                await asyncio.sleep(op[2])
+                peer.data_close()
             elif kind == "put":
                 o = op[3] if len(op) > 3 else {}
                 if o.get("rest") is not None:
